@@ -537,8 +537,9 @@ impl FixtureDatabase {
                     }
                 }
 
-                // Then add fixtures imported into the conftest
-                if self.file_cache.contains_key(&conftest_path) {
+                // Then add fixtures imported into the conftest (same existence test as
+                // find_closest_definition: a closed or evicted conftest still counts)
+                if conftest_path.exists() || self.file_cache.contains_key(&conftest_path) {
                     let mut visited = HashSet::new();
                     let imported_fixtures =
                         self.get_imported_fixtures(&conftest_path, &mut visited);
